@@ -11,7 +11,7 @@ SCHEMA = """
 enum Color { RED GREEN }
 input Inner { n: Int = 7 tag: String }
 input Filter { color: Color inner: Inner ids: [ID!] maybe: [Int] className: String }
-type Query { q(a: Int, b: [Int]!, c: [Int!], f: Filter, fs: [Filter], query: String, data: Int, _query: String, className: String): Int }
+type Query { q(a: Int, b: [Int]!, c: [Int!], m: [[Int]], f: Filter, fs: [Filter], query: String, data: Int, _query: String, className: String): Int }
 """
 QUERIES = """
 query Plain($a: Int, $b: [Int]!, $c: [Int!]) { q(a: $a, b: $b, c: $c) }
@@ -19,7 +19,13 @@ query WithInput($f: Filter, $fs: [Filter]) { q(b: [], f: $f, fs: $fs) }
 query Clash($query: String, $data: Int) { q(b: [], query: $query, data: $data) }
 query Keyword($className: String) { q(b: [], className: $className) }
 query Capital($Query: String, $DATA: Int) { q(b: [], query: $Query, data: $DATA) }
+query Required($f: Filter!, $m: [[Int]]) { q(b: [], f: $f, m: $m) }
 """
+SCHEMA_NAMES = """
+input Renamed { from: String _id: String schema: String camelCase: String }
+type Query { q(f: Renamed, from: String): Int }
+"""
+QUERIES_NAMES = "query Names($f: Renamed, $from: String) { q(f: $f, from: $from) }"
 
 
 def _call(g, method, **kw):
@@ -74,9 +80,52 @@ def run_cases():
         case("argument-named-like-a-method-local", "clash", dict(query="needle", data=3), {"query": "needle", "data": 3})
         case("camel-case-variable", "keyword", dict(class_name="c"), {"className": "c"})
         case("variable-that-becomes-a-method-local-after-snake-casing", "capital", dict(query="needle", data=4), {"Query": "needle", "DATA": 4})
+
+        def refuse(name, method, kw):
+            """a required variable cannot be omitted: the call is refused before anything is sent"""
+            try:
+                payload = _call(g, method, **kw)
+                rep["outcome"][name] = {"sent-without-required-variable": payload.get("variables")}
+                rep["cases"].append(name)
+            except TypeError:
+                rep["outcome"][name] = "ok"
+            except Exception as e:   # noqa
+                rep["outcome"][name] = f"{type(e).__name__}: {str(e)[:200]}"
+                rep["cases"].append(name)
+        refuse("required-list-of-nullable-items-cannot-be-omitted", "plain", dict(a=1))
+        refuse("required-input-cannot-be-omitted", "required", dict())
+        case("required-input-and-list-of-lists", "required", dict(f=it.Filter(maybe=[None, 1]), m=[[1, None], None]),
+             {"f": {"maybe": [None, 1]}, "m": [[1, None], None]})
     except Exception as e:   # noqa
         rep["outcome"]["generation"] = f"{type(e).__name__}: {str(e)[:300]}"
         rep["cases"].append("generation")
+    finally:
+        if g is not None:
+            g.cleanup()
+    # names that are renamed for other reasons than snake-casing still travel under their GraphQL name
+    g = None
+    try:
+        g = generate_client(SCHEMA_NAMES, QUERIES_NAMES, convert_to_snake_case=False)
+        schema = G.build_schema(SCHEMA_NAMES)
+        it = g.module("input_types")
+        for name, kw, expect in (
+                ("no-snake-case:keyword/underscore/reserved-input-fields-travel-by-graphql-name",
+                 dict(f=it.Renamed(**{"from": "a", "_id": "b", "schema": "c", "camelCase": "d"})),
+                 {"f": {"from": "a", "_id": "b", "schema": "c", "camelCase": "d"}}),
+                ("no-snake-case:keyword-variable", {"f": None, "from_": "x"}, {"f": None, "from": "x"})):
+            try:
+                payload = _call(g, "names", **kw)
+                got = _coerced(schema, payload)
+                ok = got == expect
+                rep["outcome"][name] = "ok" if ok else {"sent": payload.get("variables"), "coerced": got, "expected": expect}
+            except Exception as e:   # noqa
+                ok = False
+                rep["outcome"][name] = f"{type(e).__name__}: {str(e)[:200]}"
+            if not ok:
+                rep["cases"].append(name)
+    except Exception as e:   # noqa
+        rep["outcome"]["generation-no-snake-case"] = f"{type(e).__name__}: {str(e)[:300]}"
+        rep["cases"].append("generation-no-snake-case")
     finally:
         if g is not None:
             g.cleanup()
@@ -165,3 +214,91 @@ def witness_escaped_local():
     if rep["cases"]:
         rep["failed"].append("post.local-query-does-not-collide-with-an-argument")
     return rep
+
+
+# ------------------------------------------------------------------------------------------ arguments named like method locals
+SCHEMA_LOCALS = """
+type Query { q(query: String, variables: String, data: String, response: String, operation_name: String): String }
+type Subscription { s(query: String, variables: String, data: String): String }
+"""
+QUERIES_LOCALS = """
+query Clash($query: String, $variables: String, $data: String, $response: String, $operation_name: String) {
+  q(query: $query, variables: $variables, data: $data, response: $response, operation_name: $operation_name) }
+subscription Sub($query: String, $variables: String, $data: String) { s(query: $query, variables: $variables, data: $data) }
+"""
+
+
+def bounded_method_locals(tier, seed):
+    """generated methods whose arguments are named like the method's own locals (query, variables, data, response):
+    the operation document, the caller's variables and the validated RESPONSE data must each end up where they belong -
+    sync client, async client and the subscription iterator (scripted connection)"""
+    from unittest import mock
+    from . import lib_fakes as F
+    cases, fails = 0, []
+    args = dict(query="Q-arg", variables="V-arg", data="D-arg", response="R-arg", operation_name="O-arg")
+    for async_ in (True, False):
+        g = None
+        try:
+            g = generate_client(SCHEMA_LOCALS, QUERIES_LOCALS if async_ else QUERIES_LOCALS.split("subscription")[0], async_client=async_)
+            sent = []
+
+            def handler(request):
+                sent.append(json.loads(request.content))
+                return httpx.Response(200, json={"data": {"q": "from-the-server"}})
+            mod = g.module("client")
+            cases += 1
+            bad = []
+            try:
+                if async_:
+                    client = mod.Client(url="http://x/graphql", http_client=httpx.AsyncClient(transport=httpx.MockTransport(handler)))
+                    out = asyncio.run(client.clash(**args))
+                else:
+                    client = mod.Client(url="http://x/graphql", http_client=httpx.Client(transport=httpx.MockTransport(handler)))
+                    out = client.clash(**args)
+                if getattr(out, "q", None) != "from-the-server":
+                    bad.append("returns-the-validated-response-data")
+                if not sent or sent[-1].get("variables") != args or "query Clash" not in sent[-1].get("query", "") or sent[-1].get("operationName") != "Clash":
+                    bad.append("sends-the-operation-document-and-the-callers-variables")
+            except Exception as e:      # noqa
+                bad.append(f"raises-{type(e).__name__}: {str(e)[:100]}")
+            if bad:
+                fails.append(dict(inputs=dict(scenario=f"{'async' if async_ else 'sync'}-query"), failed=bad, outcome=sent[-1:] if sent else None))
+            if async_:
+                cases += 1
+                bad = []
+                sub_args = {k: args[k] for k in ("query", "variables", "data")}
+                ws = F.NativeWS([json.dumps({"type": "connection_ack"}), json.dumps({"type": "next", "payload": {"data": {"s": "pushed"}}}),
+                                 json.dumps({"type": "complete"})])
+                base = __import__(mod.__name__.rsplit(".", 1)[0] + ".async_base_client", fromlist=["x"])
+
+                async def drive():
+                    items = []
+                    client = mod.Client(url="http://x/graphql", ws_url="ws://x/graphql")
+                    with mock.patch.object(base, "ws_connect", lambda *a, **k: ws):
+                        async for item in client.sub(**sub_args):
+                            items.append(item)
+                    return items
+                try:
+                    items = asyncio.run(drive())
+                    frames = [json.loads(v) for k, v in ws.log if k == "ws_send"]
+                    subs = [f for f in frames if f.get("type") == "subscribe"]
+                    if len(subs) != 1 or "subscription Sub" not in subs[0]["payload"].get("query", "") or subs[0]["payload"].get("variables") != sub_args \
+                            or subs[0]["payload"].get("operationName") != "Sub":
+                        bad.append("subscribe-carries-the-operation-document-and-the-callers-variables")
+                    if [getattr(i, "s", None) for i in items] != ["pushed"]:
+                        bad.append("yields-the-validated-data-of-each-next-frame")
+                except Exception as e:      # noqa
+                    bad.append(f"raises-{type(e).__name__}: {str(e)[:100]}")
+                if bad:
+                    fails.append(dict(inputs=dict(scenario="async-subscription"), failed=bad, outcome=[v for k, v in ws.log][:3]))
+        except Exception as e:      # noqa
+            cases += 1
+            fails.append(dict(inputs=dict(scenario=f"generation-async={async_}"), failed=["generation"], outcome=f"{type(e).__name__}: {str(e)[:200]}"))
+        finally:
+            if g is not None:
+                g.cleanup()
+    return dict(function="ariadne_codegen.client_generators.client:ClientGenerator.add_method", name="bounded.method-locals",
+                kind="bounded stand-in (end to end, native)",
+                domain="query (sync and async client) and subscription whose variables are named query / variables / data / response / "
+                       "operation_name; request through httpx.MockTransport, subscription through a scripted connection",
+                cases=cases, failed=len(fails), failures=fails)
